@@ -3,6 +3,9 @@ open GlueVerif.C09
 #print axioms range_numeric
 #print axioms from_range_positions
 #print axioms range_categorical
+#print axioms from_range_unsorted
+#print axioms from_range_any_list
+#print axioms contains_needs_sorted
 #print axioms categorical_roi
 #print axioms rect_categorical
 #print axioms polygon_cat_cat
